@@ -6,10 +6,18 @@ import "sync/atomic"
 // The real session object runs against stub helper process, pipes and timers; the harness plays the remote side,
 // the user and the passing of time, choosing one event per step nondeterministically.
 
-type zzSink19 struct{ data []byte }
+type zzSink19 struct {
+	data    []byte
+	onEnter func() // the remote shell's reaction to a lone carriage return (the hand-back Enter), if the harness plays one
+}
 
 func (s *zzSink19) Write(p []byte) (int, error) {
 	s.data = append(s.data, p...)
+	if s.onEnter != nil && len(p) == 1 && p[0] == '\r' {
+		f := s.onEnter
+		s.onEnter = nil
+		f()
+	}
 	return len(p), nil
 }
 
@@ -88,6 +96,17 @@ func zzH_C19_session() {
 			dropped = true
 		}
 	}
+	// a fast remote shell: it answers the Enter that ends the session with a new prompt before the write returns
+	promptSwallowed := false
+	if verifNondetBool() {
+		srv.onEnter = func() {
+			if !dropped && z.handleServerOutput([]byte("$ ")) {
+				promptSwallowed = true
+			} else {
+				dropped = true
+			}
+		}
+	}
 	for step := 0; step < verifBound("STEPS"); step++ {
 		switch verifNondetRange(0, 7) {
 		case 7:
@@ -114,6 +133,7 @@ func zzH_C19_session() {
 		verifAdvanceTime()
 		verifQuiesce()
 	}
+	verifAssert(!promptSwallowed, "the prompt that answers the hand-back Enter was swallowed")
 	verifAssert(z.stopped.Load(), "session still running although the line has been quiet beyond every timeout")
 	verifAssert(!z.isTransferringFiles(), "session still claims the terminal after the line went quiet")
 	if !dropped {
